@@ -19,8 +19,8 @@ RULE = (
     "loop-based recomputation (math.fsum). A case is one input set per function family; distinct = hash of the inputs; "
     "non-trivial = repeated single-agent measurements / unequal chains / >=2 samples present"
 )
-ASSUMPTIONS = ["correlation cases whose centred prediction row is identically zero (0/0 diagonal) are detected and skipped"]
-REQUIRED = {"synergy_cases_with_integer_observations": {"quick": 60, "thorough": 1500}, "analysis_cli_runs": {"quick": 8, "thorough": 80}, "evaluation_cases": {"quick": 300, "thorough": 8000}, "single_effect_cases": {"quick": 300, "thorough": 8000}, "single_effect_cases_with_sparse_ids": {"quick": 80, "thorough": 2000}, "synergy_cases": {"quick": 300, "thorough": 8000}, "correlation_cases": {"quick": 60, "thorough": 1500}, "combinatoric_space_cases": {"quick": 100, "thorough": 2500}}
+ASSUMPTIONS = ["correlation cases whose centred prediction row is (nearly) identically zero (length below 1e-13: 0/0 diagonal) are detected and skipped; for near-replicate samples (lengths 1e-13 .. 1e-9) the tolerance on the entries grows with 2e-14 / length, the diagonal stays at 1e-9"]
+REQUIRED = {"correlation_cases_near_replicate_samples": {"quick": 10, "thorough": 250}, "synergy_cases_with_integer_observations": {"quick": 60, "thorough": 1500}, "analysis_cli_runs": {"quick": 8, "thorough": 80}, "evaluation_cases": {"quick": 300, "thorough": 8000}, "single_effect_cases": {"quick": 300, "thorough": 8000}, "single_effect_cases_with_sparse_ids": {"quick": 80, "thorough": 2000}, "synergy_cases": {"quick": 300, "thorough": 8000}, "correlation_cases": {"quick": 60, "thorough": 1500}, "combinatoric_space_cases": {"quick": 100, "thorough": 2500}}
 N_CASES = {"quick": 1920, "thorough": 24000}
 
 
@@ -266,8 +266,15 @@ def run_shard(rec, tier, seed, shard, nshards):
                 sp = ExperimentSpace(treatment_mapping=screen.treatment_mapping, sample_mapping=screen.sample_mapping, control_treatment_name=screen.control_treatment_name)
                 T = int(rng.integers(1, 5))
                 holder = ThetaHolder(n_thetas=T)
+                near_replicates = bool(rng.random() < 0.2)
+                eps_ = float(rng.choice([1e-10, 3e-11]))
                 for _ in range(T):
-                    holder.add_theta(gen.random_sparse_combo_theta(rng, sp.n_unique_samples, max(1, sp.n_unique_treatments), scale=float(rng.choice([0.3, 1.0]))))
+                    th_ = gen.random_sparse_combo_theta(rng, sp.n_unique_samples, max(1, sp.n_unique_treatments), scale=float(rng.choice([0.3, 1.0])))
+                    if near_replicates:
+                        # samples that are replicates of one another up to the tenth digit (the same line plated twice)
+                        th_.W[:] = th_.W[0] + eps_ * rng.normal(size=th_.W.shape)
+                        th_.W0[:] = th_.W0[0] + eps_ * rng.normal(size=th_.W0.shape)
+                    holder.add_theta(th_)
                 w = {"arity": arity, "mapping_rows": int(len(screen.treatment_mapping[0])), "samples": int(sp.n_unique_samples), "T": T}
                 # calculate_mse
                 try:
@@ -313,10 +320,15 @@ def run_shard(rec, tier, seed, shard, nshards):
                 mu = [fmean(p[e] for p in preds) for e in range(ncol)]
                 X = [[p[e] - mu[e] for e in range(ncol)] for p in preds]
                 norms = [math.sqrt(math.fsum(x * x for x in row)) for row in X]
-                if min(norms) < 1e-9:
+                if min(norms) < 1e-13:
                     rec.count("correlation_degenerate_skipped")
                     continue
                 rec.count("correlation_cases")
+                # near-replicate samples: the centred rows are tiny (1e-13 .. 1e-9) but not zero; each row is still divided
+                # by its own length (unit diagonal), the entries carry the rounding of the centring (1e-16 / length)
+                tol_def = 1e-8 + 2e-14 / min(norms)
+                if min(norms) < 1e-9:
+                    rec.count("correlation_cases_near_replicate_samples")
                 ref = [[math.fsum(a * b for a, b in zip(X[i], X[j])) / (norms[i] * norms[j]) for j in range(len(X))] for i in range(len(X))]
                 C = np.asarray(corr.values, dtype=float)
                 id_to_name = dict(zip([int(x) for x in screen.sample_ids], [str(x) for x in screen.sample_names]))
@@ -324,7 +336,7 @@ def run_shard(rec, tier, seed, shard, nshards):
                 if C.shape == (len(usids), len(usids)):
                     rec.check(bool(np.allclose(C, C.T, rtol=0, atol=1e-12)), "C20/correlation/asymmetric", "similarity matrix is not symmetric", w)
                     rec.check(bool(np.allclose(np.diag(C), 1.0, rtol=0, atol=1e-9)), "C20/correlation/diagonal-not-one", lambda: "diagonal %r" % np.diag(C).tolist(), w)
-                    rec.check(bool(np.allclose(C, np.array(ref), rtol=0, atol=1e-8)), "C20/correlation/differs-from-definition", lambda: "similarity %r, definition %r" % (C.tolist(), ref), w)
+                    rec.check(bool(np.allclose(C, np.array(ref), rtol=0, atol=tol_def)), "C20/correlation/differs-from-definition", lambda: "similarity %r, definition %r" % (C.tolist(), ref), w)
                 # ---- the numbers as the analysis command reports them (summary_statistics.json): an evaluation file with
                 #      several chains, the posterior samples given as ONE combined file
                 if last_eval is not None and cli_budget > 0 and not hasattr(screen, "selection_vector"):
